@@ -30,7 +30,7 @@ man = {
     "hooks": {
         "guard": "verif",
         "enable": "no source hooks: harnesses and stubs are injected with go/packages build overlays (in-package files zz_verif_*.go and package zzverif); the tag 'verif' is reserved",
-        "baseline_off_cmd": "cd /repo && go build ./... && go test -vet=off -count=1 ./strutil/... ./snap/channel/... ./overlord/state/... ./snap/quota/... ./snap/naming/... ./timeutil/...",
+        "baseline_off_cmd": "cd /repo && GOFLAGS=-mod=mod GOPROXY=off GOSUMDB=off GOTOOLCHAIN=local go test -json -vet=off -count=1 -timeout 25m ./...",
         "source_commits": [],
         "add_only": True,
     },
